@@ -180,13 +180,16 @@ TDisconnectCall ==
     /\ disc' = disc \cup {[id |-> l, a |-> Ev.a, b |-> Ev.b, renewed |-> FALSE]}   \* id: calls for the same pair stay apart
     /\ UNCHANGED <<vars, hsok, regP, canP, csP, tickCredit, advMode, advPubd>>
 
-\* the connection is gone once DisconnectPeer has returned - unless a new one was admitted meanwhile
+\* A's connection is gone once DisconnectPeer has returned - unless a new one was admitted meanwhile. The
+\* connection between the two honest nodes is not followed this closely (its two ends are admitted by two
+\* firewalls at two moments): it counts as possibly there from the first mutual admission on, which only
+\* makes the specification explain more of what S sends, never anything of A's.
 TDisconnectRet ==
     /\ IsEvent("DisconnectRet")
     /\ \E d \in disc :
          /\ d.a = Ev.a /\ d.b = Ev.b
          /\ disc' = disc \ {d}
-         /\ IF d.renewed THEN UNCHANGED <<cs, adm, wire>>
+         /\ IF d.renewed \/ "A" \notin {d.a, d.b} THEN UNCHANGED <<cs, adm, wire>>
             ELSE cs' = DownCs(d.a, d.b) /\ adm' = DownAdm(d.a, d.b) /\ wire' = DownWire(d.a, d.b)
     /\ UNCHANGED <<clock, fwRvars, fwSvars, chainVars, hsVars, sessVars, claimed, everAdm, ndrops, nadvdials, bcVars,
                    ticks, rt1Vars, rt2Vars, inbox, advUsed, ghostVars, hsok, regP, canP, csP, tickCredit, advMode, advPubd>>
@@ -349,21 +352,33 @@ TDelivered ==
 \*  - the filter and the handler's return touch nothing else; a tick read earlier spawns no fewer callbacks, a
 \*    Send context cancelled earlier than necessary is only needed against a pending tick - both orders are tried
 \*    only when a tick and a cancellation are pending together;
-\*  - a callback that does not fire, and the way of a message through deliver(), queue and context check, are
-\*    only taken when the next event needs them (a Retransmit / a Delivered) or while a handler's cancel() is
-\*    in progress (what was checked before the cancellation may be delivered after it).
+\*  - a callback that does not fire is only taken when the next event (a Retransmit) needs it; the way of a
+\*    message through deliver() and a handler's queue is only taken for a message that handler will be seen to
+\*    receive later in this world (duplicates and messages nobody is seen to receive stay where they are), and
+\*    only when the next event is a Delivered or while a handler's cancel() is in progress (what was checked
+\*    before the cancellation may be delivered after it); the context check follows the dequeue at once (an
+\*    earlier check passes whenever a later one does).
 ReadableR == {c \in wire : c.to = "R" /\ Up("R", c.hop)}
 ReadableS == {c \in wire : c.to = "S" /\ Up("S", c.hop) /\ SendUp("S", "R") /\ c.env.author # "S"}
-UrgH    == \E h \in Handlers : pc[h] \in {"checked", "running"}
+UrgH    == \E h \in Handlers : pc[h] \in {"dequeued", "checked", "running"}
 UrgNet  == ReadableR \cup ReadableS # {}
 UrgTick == tickCredit > 0 /\ \A k \in 1..2 : csP[k] # "called"
 UrgCS   == tickCredit = 0 /\ \E k \in 1..2 : csP[k] = "called"
 Urgent  == UrgH \/ UrgNet \/ UrgTick \/ UrgCS
 SUrgent ==
-    IF UrgH THEN (BC!DoFilterDup \/ BC!DoReturn) /\ UNCHANGED <<nonBc, l, traceOnly>>
+    IF UrgH THEN (BC!DoCheckCtx \/ BC!DoFilterDup \/ BC!DoReturn) /\ UNCHANGED <<nonBc, l, traceOnly>>
     ELSE IF UrgNet THEN NetRead(CHOOSE c \in ReadableR \cup ReadableS : TRUE) /\ UNCHANGED <<l, traceOnly>>
     ELSE IF UrgTick THEN STickAll
     ELSE SCancelSend(CHOOSE k \in 1..2 : csP[k] = "called")
+
+\* looking ahead in the recorded world: will handler h be entered with message m?
+ResetLines == {j \in 1..Len(Trace) : Trace[j].event = "Reset"} \cup {Len(Trace) + 1}
+NextReset == [j \in 1..(Len(Trace) + 1) |-> CHOOSE k \in ResetLines : k >= j /\ \A k2 \in ResetLines : k2 >= j => k <= k2]
+FutureDlv(h, m) ==
+    \E j \in l..(NextReset[l] - 1) : Trace[j].event = "Delivered" /\ Trace[j].h = h /\ MsgOf(E(Trace[j].env)) = m
+NeedsH(h, m) == m \notin seen[h] /\ FutureDlv(h, m)
+NeededD(d)   == \E j \in d.i..Len(d.snap) : NeedsH(d.snap[j], d.m)
+NeededQ(h)   == \E j \in DOMAIN queue[h] : NeedsH(h, queue[h][j])
 
 CancelWindow == \E h \in Handlers : canP[h] = "called"
 Silent ==
@@ -371,7 +386,9 @@ Silent ==
     \/ \E k \in 1..2 : SCancelSend(k)
     \/ STickAll \/ SQuietCallback
     \/ /\ UNCHANGED <<nonBc, l, traceOnly>>
-       /\ \/ ((NextIs("Delivered") \/ CancelWindow) /\ (BC!DoTrySend \/ BC!DoDequeue \/ BC!DoCheckCtx))
+       /\ \/ /\ NextIs("Delivered") \/ CancelWindow
+             /\ \/ \E d \in dl : NeededD(d) /\ BC!TrySend(d)
+                \/ \E h \in Handlers : NeededQ(h) /\ BC!Dequeue(h)
           \/ ((\E h \in Handlers : regP[h] = "called") /\ (BC!DoRemoveHandler \/ BC!DoExitOnDone))
 
 Pinned ==
